@@ -19,6 +19,7 @@ from odl.discr import diff_ops
 from .. import cover, util
 
 SHARDS = {'quick': 4, 'thorough': 16}
+THOROUGH_ROUNDS = 3
 
 METHODS = ['forward', 'backward', 'central']
 DIRECT = ['constant', 'symmetric', 'periodic', 'order0', 'order1', 'order2']
